@@ -338,7 +338,11 @@ pub fn build(
                 if associated_functions_used_names.contains(&original_name) {
                     function.name = format!("{}_{}", base_name, original_name);
                 }
-                function.body = FunctionBody::field(base_name.clone(), original_name);
+                // A function without a receiver cannot go through the base field;
+                // it keeps its own body, which has the same effect.
+                if function.arguments.iter().any(|a| a.is_self()) {
+                    function.body = FunctionBody::field(base_name.clone(), original_name);
+                }
                 associated_functions_used_names.insert(function.name.clone());
                 associated_functions.push(function);
             }
